@@ -127,16 +127,15 @@ theorem feedReports_chan (cfg : Cfg) (c : Ch) (m : Nat) (c' : Ch) : ∀ (bs : By
     · rw [feedReports_chan cfg c m c' bs, handleReport_chan, msg_setDline]
     · rw [feedReports_chan cfg c m c' bs, msg_setDline]
 
-/-- frame lemma: an accepted event that does not touch channel file `c` of message `m` leaves it as it is -/
-theorem chan_frame (cfg : Cfg) (s s' : St) (e : Ev) (h : accept cfg s e = some s') (m : Nat) (c : Ch)
+theorem chan_frame_core (cfg : Cfg) (s s' : St) (e : Ev) (h : acceptCore cfg s e = some s') (m : Nat) (c : Ch)
     (ht : touchesChan m c e = false) : (s'.msg m).chan c = (s.msg m).chan c := by
   cases e
   case rbytes c' bs =>
-    simp only [accept] at h
+    simp only [acceptCore] at h
     split at h
     · cases h
     · cases h; rw [feedReports_chan]; rfl
-  all_goals (simp only [accept] at h; repeat' split at h)
+  all_goals (simp only [acceptCore] at h; repeat' split at h)
   all_goals first
     | (cases h; done)
     | (cases h; rfl)
@@ -152,6 +151,11 @@ theorem chan_frame (cfg : Cfg) (s s' : St) (e : Ev) (h : accept cfg s e = some s
     | (cases h; simp only [St.msg, St.upd, tabGet_set]; split
        · rename_i he; subst he; exact chan_setChanSynced _ _ _ _
        · rfl)
+
+/-- frame lemma: an accepted event that does not touch channel file `c` of message `m` leaves it as it is -/
+theorem chan_frame (cfg : Cfg) (s s' : St) (e : Ev) (h : accept cfg s e = some s') (m : Nat) (c : Ch)
+    (ht : touchesChan m c e = false) : (s'.msg m).chan c = (s.msg m).chan c := by
+  rw [chan_frame_core cfg (s.before e) s' e h m c ht, St.before_msg]
 
 theorem getD_append_left' {α : Type} (l l' : List α) (d : α) (n : Nat) (h : n < l.length) : (l ++ l').getD n d = l.getD n d := by
   simp [List.getD, List.getElem?_append_left h]
@@ -192,14 +196,21 @@ theorem markedDone_of_chan (s s' : St) (x : Nat × Ch × Nat) (h : (s'.msg x.1).
     markedDone s' x = markedDone s x := by
   simp only [markedDone, h]
 
-/-- **A completion mark on disk stays** under every accepted event except a machine crash that reverts marks of that file
-(`crashMarks`), the removal of the file (`unlinkChan`) and a machine crash that garbles the files of a message still being
-preprocessed (`crashTodoFiles`) -/
-theorem markedDone_step (cfg : Cfg) (s s' : St) (e : Ev) (h : accept cfg s e = some s') (x : Nat × Ch × Nat)
+theorem getD_zip_done : ∀ (rs : List Rec) (marks : List Bool) (i : Nat), marks.length = rs.length → i < rs.length →
+    (((List.map (fun (x : Rec × Bool) => match x with | (r, d) => ({ r with done := d } : Rec)) (rs.zip marks)).getD i ⟨false, []⟩).done) = marks.getD i false
+  | [], _, _, _, h => by simp at h
+  | r :: rs, [], _, h, _ => by simp at h
+  | r :: rs, d :: ds, 0, _, _ => by simp
+  | r :: rs, d :: ds, i + 1, hl, hi => by
+    have := getD_zip_done rs ds i (by simpa using hl) (by simpa using hi)
+    simpa using this
+
+theorem markedDone_step_core (cfg : Cfg) (s s' : St) (e : Ev) (h : acceptCore cfg s e = some s') (x : Nat × Ch × Nat)
     (hm : markedDone s x = true) :
-    markedDone s' x = true ∨ (∃ marks, e = .crashMarks x.1 x.2.1 marks) ∨ e = .unlinkChan x.1 x.2.1 ∨ e = .crashTodoFiles x.1 := by
+    markedDone s' x = true ∨ (∃ marks, e = .crashMarks x.1 x.2.1 marks ∧ marks.getD x.2.2 false = false) ∨
+      e = .unlinkChan x.1 x.2.1 ∨ e = .crashTodoFiles x.1 := by
   by_cases ht : touchesChan x.1 x.2.1 e = false
-  · left; rw [markedDone_of_chan s s' x (chan_frame cfg s s' e h x.1 x.2.1 ht)]; exact hm
+  · left; rw [markedDone_of_chan s s' x (chan_frame_core cfg s s' e h x.1 x.2.1 ht)]; exact hm
   · have ht : touchesChan x.1 x.2.1 e = true := by simpa using ht
     obtain ⟨m, c, i⟩ := x
     simp only at hm ht ⊢
@@ -207,12 +218,33 @@ theorem markedDone_step (cfg : Cfg) (s s' : St) (e : Ev) (h : accept cfg s e = s
     | unlinkChan m' c' =>
       simp [touchesChan] at ht; right; right; left; rw [ht.1, ht.2]
     | crashMarks m' c' marks =>
-      simp [touchesChan] at ht; right; left; exact ⟨marks, by rw [ht.1, ht.2]⟩
+      simp [touchesChan] at ht; obtain ⟨h1, h2⟩ := ht; subst h1; subst h2
+      cases hk : marks.getD i false with
+      | false => right; left; exact ⟨marks, rfl, hk⟩
+      | true =>
+        -- the record's own byte was kept
+        left
+        simp only [acceptCore] at h
+        split at h
+        · cases h
+        · rename_i rs hrs
+          split at h
+          · rename_i hg
+            cases h
+            simp only [markedDone] at hm ⊢
+            rw [hrs] at hm
+            simp only [Bool.and_eq_true, decide_eq_true_eq] at hm
+            simp only [St.msg, St.upd, tabGet_set, if_true, chan_setChan]
+            simp only [Bool.and_eq_true, decide_eq_true_eq, List.length_map, List.length_zip, hg.2.2.2.1, Nat.min_self]
+            refine ⟨hm.1, ?_⟩
+            have := getD_zip_done rs marks i hg.2.2.2.1 hm.1
+            rw [hk] at this; exact this
+          · cases h
     | crashTodoFiles m' =>
       simp [touchesChan] at ht; right; right; right; rw [ht]
     | newmsg m' sd rc =>
       simp [touchesChan] at ht; subst ht
-      simp only [accept] at h
+      simp only [acceptCore] at h
       split at h
       · rename_i hg
         exfalso
@@ -229,7 +261,7 @@ theorem markedDone_step (cfg : Cfg) (s s' : St) (e : Ev) (h : accept cfg s e = s
       · cases h
     | creatChan m' c' =>
       simp [touchesChan] at ht; obtain ⟨h1, h2⟩ := ht; subst h1; subst h2
-      simp only [accept] at h
+      simp only [acceptCore] at h
       split at h
       · rename_i hg
         exfalso
@@ -240,7 +272,7 @@ theorem markedDone_step (cfg : Cfg) (s s' : St) (e : Ev) (h : accept cfg s e = s
       · cases h
     | writeChan m' c' bs =>
       simp [touchesChan] at ht; obtain ⟨h1, h2⟩ := ht; subst h1; subst h2
-      simp only [accept] at h
+      simp only [acceptCore] at h
       split at h
       · rename_i cur rs hcur _
         split at h
@@ -257,7 +289,7 @@ theorem markedDone_step (cfg : Cfg) (s s' : St) (e : Ev) (h : accept cfg s e = s
       · cases h
     | markD m' c' pos =>
       simp [touchesChan] at ht; obtain ⟨h1, h2⟩ := ht; subst h1; subst h2
-      simp only [accept] at h
+      simp only [acceptCore] at h
       split at h
       · cases h
       · split at h
@@ -277,6 +309,16 @@ theorem markedDone_step (cfg : Cfg) (s s' : St) (e : Ev) (h : accept cfg s e = s
               exact ⟨hm.1, getD_setDone_mono rs idx i hm.2⟩
             · cases h
     | _ => simp [touchesChan] at ht
+
+/-- **A completion mark on disk stays** under every accepted event except a machine crash that reverts THIS mark
+(`crashMarks` with the record's own byte back to `T`), the removal of the file (`unlinkChan`) and a machine crash that garbles the
+files of a message still being preprocessed (`crashTodoFiles`) -/
+theorem markedDone_step (cfg : Cfg) (s s' : St) (e : Ev) (h : accept cfg s e = some s') (x : Nat × Ch × Nat)
+    (hm : markedDone s x = true) :
+    markedDone s' x = true ∨ (∃ marks, e = .crashMarks x.1 x.2.1 marks ∧ marks.getD x.2.2 false = false) ∨
+      e = .unlinkChan x.1 x.2.1 ∨ e = .crashTodoFiles x.1 :=
+  markedDone_step_core cfg (s.before e) s' e h x
+    (by rw [markedDone_of_chan s (s.before e) x (by rw [St.before_msg])]; exact hm)
 
 /-! ### at most once: no further `K` for a finished record without an attempt outstanding -/
 
@@ -363,11 +405,11 @@ theorem delivered_setChan (ms : MsgSt) (c : Ch) (v : Option (List Rec)) : (ms.se
 theorem delivered_setChanSynced (ms : MsgSt) (c : Ch) (v : Bool) : (ms.setChanSynced c v).delivered = ms.delivered := by
   cases c <;> rfl
 
-theorem delivered_frame (cfg : Cfg) (s s' : St) (e : Ev) (h : accept cfg s e = some s') (m : Nat)
+theorem delivered_frame_core (cfg : Cfg) (s s' : St) (e : Ev) (h : acceptCore cfg s e = some s') (m : Nat)
     (ht : touchesDelivered m e = false) : (s'.msg m).delivered = (s.msg m).delivered := by
   cases e
   case rbytes c' bs => simp [touchesDelivered] at ht
-  all_goals (simp only [accept] at h; repeat' split at h)
+  all_goals (simp only [acceptCore] at h; repeat' split at h)
   all_goals first
     | (cases h; done)
     | (cases h; rfl)
@@ -379,6 +421,10 @@ theorem delivered_frame (cfg : Cfg) (s s' : St) (e : Ev) (h : accept cfg s e = s
        · simp only [delivered_setChan, delivered_setChanSynced]; subst_vars; rfl
        · rfl)
 
+theorem delivered_frame (cfg : Cfg) (s s' : St) (e : Ev) (h : accept cfg s e = some s') (m : Nat)
+    (ht : touchesDelivered m e = false) : (s'.msg m).delivered = (s.msg m).delivered := by
+  rw [delivered_frame_core cfg (s.before e) s' e h m ht, St.before_msg]
+
 theorem inFl_of_slots (s s' : St) (x : Nat × Ch × Nat) (h : s'.slots = s.slots) : inFl s' x = inFl s x := by
   simp only [inFl, inFlight, h]
 
@@ -388,11 +434,15 @@ theorem once_step (cfg : Cfg) (s s' : St2) (e : Ev2) (h : accept2 cfg s e = some
   cases e with
   | markFail m c pos =>
     simp only [accept2] at h
-    split at h <;> (cases h; exact ⟨hf, rfl⟩)
-  | cleanRestart =>
-    simp only [accept2, accept] at h
     split at h
-    · cases h; exact ⟨by simp [inFl, inFlight], rfl⟩
+    · split at h
+      · cases h; exact ⟨hf, rfl⟩
+      · cases h
+    · cases h
+  | cleanRestart =>
+    simp only [accept2, accept_restart] at h
+    split at h
+    · cases h; exact ⟨by simp [inFl, inFlight, St.calm], rfl⟩
     · cases h
   | ev e0 =>
     obtain ⟨sb, so⟩ := s'
@@ -403,7 +453,8 @@ theorem once_step (cfg : Cfg) (s s' : St2) (e : Ev2) (h : accept2 cfg s e = some
       have hd : dcount sb x = dcount s.base x := by
         simp only [dcount]; rw [delivered_frame cfg s.base sb _ hb x.1 (by simp [touchesDelivered])]
       refine ⟨?_, hd⟩
-      simp only [accept] at hb
+      change acceptCore cfg s.base.calm _ = _ at hb
+      simp only [acceptCore] at hb
       split at hb
       · cases hb
       · split at hb
@@ -414,9 +465,10 @@ theorem once_step (cfg : Cfg) (s s' : St2) (e : Ev2) (h : accept2 cfg s e = some
           · rename_i idx hidx
             split at hb
             · cases hb
+              have hch : (s.base.msg m).chan c = some rs := hch
               have hr : recAt s.base m c p = some idx := by simp [recAt, hch, hidx]
               simp only [cmdFor, hr] at hnc
-              simp only [inFl, inFlight, List.any_cons] at hf ⊢
+              simp only [inFl, inFlight, List.any_cons, St.calm_slots] at hf ⊢
               rw [hf, Bool.or_false]
               cases hq : (m == x.1 && c == x.2.1 && idx == x.2.2) with
               | false => rfl
@@ -427,15 +479,16 @@ theorem once_step (cfg : Cfg) (s s' : St2) (e : Ev2) (h : accept2 cfg s e = some
             · cases hb
     · by_cases h2 : ∃ c bs, e0 = .rbytes c bs
       · obtain ⟨c, bs, rfl⟩ := h2
-        simp only [accept] at hb
+        change acceptCore cfg s.base.calm _ = _ at hb
+        simp only [acceptCore] at hb
         split at hb
         · cases hb
         · cases hb
-          have := feedReports_dcount cfg c x bs { s.base with mayMark := [], notes := [] } hf
+          have := feedReports_dcount cfg c x bs { s.base.calm with mayMark := [], notes := [] } hf
           exact ⟨this.2, this.1⟩
       · by_cases h3 : e0 = .restart
         · subst h3
-          simp only [accept] at hb
+          simp only [accept_restart] at hb
           cases hb
           exact ⟨by simp [inFl, inFlight], rfl⟩
         · have hs := slots_unchanged cfg s.base sb e0 hb (fun c d m p r he => h1 ⟨c, d, m, p, r, he⟩) (fun c bs he => h2 ⟨c, bs, he⟩) h3
